@@ -563,11 +563,22 @@ pub fn gen_module(rng: &mut Rng, opts: GenOpts) -> Module {
     for _ in 1..nfuncs {
         fsigs.push(rng.pick(&sig_pool).clone());
     }
-    // table: internal functions other than 0 (so that call_indirect keeps the call graph acyclic
-    // the table only holds functions with index >= 1 and they are called from function 0 only).
-    let table: Vec<Option<u32>> = if nfuncs > 1 && rng.chance(2, 3) {
-        let n = rng.urange(1, 4);
-        (0..n).map(|_| if rng.chance(1, 6) { None } else { Some(rng.range(1, nfuncs as u64 - 1) as u32) }).collect()
+    // table: internal functions other than 0 (so that call_indirect keeps the call graph acyclic:
+    // only function 0 calls through the table) and imported host functions.
+    let hosts_only = rng.chance(1, 3);
+    let table: Vec<Option<TRef>> = if rng.chance(3, 4) {
+        let n = rng.urange(1, 5);
+        (0..n)
+            .map(|_| {
+                if rng.chance(1, 8) {
+                    None
+                } else if !hosts_only && nfuncs > 1 && rng.chance(3, 5) {
+                    Some(TRef::Func(rng.range(1, nfuncs as u64 - 1) as u32))
+                } else {
+                    Some(TRef::Host(rng.below(imports.len() as u64) as u32))
+                }
+            })
+            .collect()
     } else {
         Vec::new()
     };
@@ -577,7 +588,10 @@ pub fn gen_module(rng: &mut Rng, opts: GenOpts) -> Module {
         // signatures used by call_indirect: those of the table's functions (plus one that may mismatch)
         let mut v: Vec<Sig> = Vec::new();
         for t in table.iter().flatten() {
-            let s = fsigs[*t as usize].clone();
+            let s = match t {
+                TRef::Func(f) => fsigs[*f as usize].clone(),
+                TRef::Host(h) => imports[*h as usize].sig.clone(),
+            };
             if !v.contains(&s) {
                 v.push(s);
             }
@@ -598,6 +612,7 @@ pub fn gen_module(rng: &mut Rng, opts: GenOpts) -> Module {
         .collect();
     let init_pages = rng.range(1, 2) as u32;
     let max_pages = Some(init_pages + rng.range(0, 3) as u32);
+    let all_hosts = table.iter().flatten().all(|t| matches!(t, TRef::Host(_)));
     let mut funcs = Vec::new();
     for fi in 0..nfuncs {
         let sig = fsigs[fi].clone();
@@ -614,11 +629,12 @@ pub fn gen_module(rng: &mut Rng, opts: GenOpts) -> Module {
             budget: if fi == 0 { 70 } else { 35 },
             // indirect calls from functions other than 0 could form cycles: only function 0 uses the table
             fidx: fi,
-            sigs: if fi == 0 { &sigs } else { &[] },
+            // a table of host functions only cannot close a call cycle: every function may call through it
+            sigs: if fi == 0 || all_hosts { &sigs } else { &[] },
             funcs: &fsigs,
             imports: &imports,
             globals: &globals,
-            table_sz: if fi == 0 { table.len() as u32 } else { 0 },
+            table_sz: if fi == 0 || all_hosts { table.len() as u32 } else { 0 },
             mem_mask: 0xff8,
             reserved: Vec::new(),
         };
@@ -632,17 +648,35 @@ pub fn gen_module(rng: &mut Rng, opts: GenOpts) -> Module {
             ret,
         });
     }
-    let data = if rng.coin() {
-        vec![Data {
-            offset: rng.range(0, 200) as u32,
-            bytes:  {
-                let n = rng.urange(1, 40);
-                rng.bytes(n)
-            },
-        }]
-    } else {
-        Vec::new()
-    };
+    // 0-3 data segments; later ones may overlap earlier ones and end in zero bytes
+    let nseg = *rng.pick(&[0usize, 1, 1, 2, 3]);
+    let mut data: Vec<Data> = Vec::new();
+    for k in 0..nseg {
+        let offset = if k > 0 && rng.chance(2, 3) {
+            // overlap the previous segment
+            let p = &data[k - 1];
+            p.offset + rng.range(0, p.bytes.len() as u64) as u32
+        } else {
+            rng.range(0, 300) as u32
+        };
+        let n = rng.urange(1, 40);
+        let mut bytes: Vec<u8> = (0..n).map(|_| rng.range(1, 255) as u8).collect();
+        match rng.below(4) {
+            0 => {
+                // zero tail
+                let z = rng.urange(1, n);
+                for b in bytes.iter_mut().rev().take(z) {
+                    *b = 0;
+                }
+            }
+            1 => {
+                let i = rng.usize_below(n);
+                bytes[i] = 0;
+            }
+            _ => {}
+        }
+        data.push(Data { offset, bytes });
+    }
     Module {
         sigs,
         imports,
